@@ -6,6 +6,7 @@ import (
 	"bytes"
 	"encoding/json"
 	"fmt"
+	logslog "log/slog"
 	"regexp"
 	"sort"
 	"strconv"
@@ -129,6 +130,7 @@ func c08GenRound(seed uint64, tier string, idx int, sharedSafe bool) *c08Round {
 	if r.Chance(50) {
 		rd.Blanks = 1 + r.Intn(3)
 	}
+	slogStart := r.Chance(25) // every goroutine starts with a record through the derived log/slog logger of logger 0
 	id := 0
 	for g := 0; g < rd.G; g++ {
 		var cs []c08CallDesc
@@ -136,6 +138,12 @@ func c08GenRound(seed uint64, tier string, idx int, sharedSafe bool) *c08Round {
 			cd := c08CallDesc{ID: id, L: r.Intn(nl), EP: c08EPs[r.Intn(len(c08EPs))], Form: r.Intn(4)}
 			if r.Chance(50) { // many goroutines on one logger
 				cd.L = 0
+			}
+			if r.Chance(12) { // through a log/slog logger derived from the logger with With(...): no attributes of its own
+				cd.EP = "SlogNoAttrs"
+			}
+			if slogStart && i == 0 {
+				cd.EP, cd.L = "SlogNoAttrs", 0
 			}
 			cd.Msg = fmt.Sprintf("C08M%d; %s", id, c08Texts[r.Intn(len(c08Texts))])
 			cd.Args = c08DropNils(c08GenAttrs(r, 0, 1, 3, false, 25))
@@ -156,6 +164,19 @@ func c08GenRound(seed uint64, tier string, idx int, sharedSafe bool) *c08Round {
 }
 
 // ---- the real objects of a round ----
+// the attributes given to With: 24 keys in descending order (the first record through the handler has something to sort)
+var c08SlogWith = func() []any {
+	out := []any{"zz", 1, "c08slog", 1}
+	for i := 23; i >= 0; i-- {
+		out = append(out, fmt.Sprintf("w%02d", i), i)
+	}
+	return out
+}()
+
+// c08Slog: the log/slog logger derived from each logger of the round (entry point "SlogNoAttrs")
+var c08Slog = map[*slog.Entry]*logslog.Logger{}
+var c08SlogMu sync.Mutex
+
 type c08RT struct {
 	ents   []*slog.Entry
 	ws     []*c08W
@@ -194,6 +215,12 @@ func (rd *c08Round) build() *c08RT {
 			e.SetAttrs(la...)
 		}
 		rt.ents = append(rt.ents, e)
+		// (handler attributes deliberately not in key order; c08slog marks the records of this entry point)
+		sl := logslog.New(slog.NewSlogHandler(e, &slog.HandlerOptions{NoColor: ld.Mode != "color", JSON: ld.Mode == "json", Level: slog.Level(ld.Level)})).
+			With(c08SlogWith...)
+		c08SlogMu.Lock()
+		c08Slog[e] = sl
+		c08SlogMu.Unlock()
 	}
 	rt.shared = c08Build(rd.Shared)
 	return rt
@@ -235,6 +262,10 @@ func c08Mask(p []byte) string {
 func c08Owner(p []byte) (int, string) {
 	ms := c08MsgRx.FindAllSubmatch(p, -1)
 	as := c08AttrRx.FindAllSubmatch(p, -1)
+	if len(ms) == 1 && len(as) == 0 && bytes.Count(p, []byte("c08slog")) == 1 { // a record of the SlogNoAttrs entry point: no attribute marker
+		m, _ := strconv.Atoi(string(ms[0][1]))
+		return m, ""
+	}
 	if len(ms) != 1 || len(as) != 1 {
 		return -1, fmt.Sprintf("%d message markers and %d attribute markers in one payload", len(ms), len(as))
 	}
